@@ -736,8 +736,7 @@ func wholeInputRule(w *World, r *Report, prop string) {
 		}
 		return false
 	}
-	recordsError := func(fn *ssa.Function, from *ssa.BasicBlock) bool {
-		return blockReaches(from, func(ins ssa.Instruction) bool {
+	isRecording := func(ins ssa.Instruction) bool {
 			switch x := ins.(type) {
 			case ssa.CallInstruction:
 				if f := x.Common().StaticCallee(); f != nil {
@@ -759,7 +758,9 @@ func wholeInputRule(w *World, r *Report, prop string) {
 				}
 			}
 			return false
-		})
+	}
+	recordsError := func(fn *ssa.Function, from *ssa.BasicBlock) bool {
+		return blockReaches(from, isRecording)
 	}
 	eofCheckIn := func(fn *ssa.Function) (ssa.Instruction, bool) {
 		var at ssa.Instruction
@@ -796,7 +797,7 @@ func wholeInputRule(w *World, r *Report, prop string) {
 			if (bo.Op == token.EQL) == val {
 				ne = 1
 			}
-			if recordsError(fn, b.Succs[ne]) {
+			if recordsError(fn, b.Succs[ne]) && checkIsUnavoidable(fn, b, b.Succs[ne], isRecording) {
 				at = b.Instrs[len(b.Instrs)-1]
 			}
 		}
@@ -866,6 +867,40 @@ func wholeInputRule(w *World, r *Report, prop string) {
 	if n == 0 {
 		r.fail(rule, "start-rule calls found", "internal/parser", "no function of the parser package invokes a start rule of the generated parser")
 	}
+}
+
+// checkIsUnavoidable: the end-of-input comparison in block b decides for every call of fn - b dominates every return of fn (no way
+// out of the function in front of the comparison: `if tok is ';' { return }` ahead of it lets input behind a ';' go unread), and
+// from the not-at-the-end successor no return is reached without passing a recording instruction.
+func checkIsUnavoidable(fn *ssa.Function, b, notEOF *ssa.BasicBlock, isRecording func(ssa.Instruction) bool) bool {
+	for _, rb := range fn.Blocks {
+		if _, isRet := rb.Instrs[len(rb.Instrs)-1].(*ssa.Return); isRet && !b.Dominates(rb) {
+			return false
+		}
+	}
+	seen := map[*ssa.BasicBlock]bool{}
+	var escapes func(x *ssa.BasicBlock) bool
+	escapes = func(x *ssa.BasicBlock) bool {
+		if seen[x] {
+			return false
+		}
+		seen[x] = true
+		for _, ins := range x.Instrs {
+			if isRecording(ins) {
+				return false
+			}
+			if _, isRet := ins.(*ssa.Return); isRet {
+				return true
+			}
+		}
+		for _, s := range x.Succs {
+			if escapes(s) {
+				return true
+			}
+		}
+		return false
+	}
+	return !escapes(notEOF)
 }
 
 // */computed-fields-are-single: a length or checksum field is one number.
